@@ -36,6 +36,33 @@ def unsupported(msg: str):
     raise EngineUnsupported(msg)
 
 
+XCHECK_TLIMIT_MS = 15000
+
+
+def cvc5_verdict(smt2_text: str, tlimit_ms: int = None) -> str:
+    """Decide an SMT-LIB2 benchmark (as printed by z3) with the cvc5 wheel: sat / unsat / unknown."""
+    import cvc5
+
+    # z3 prints its internal "divisor known to be non-zero" operators; they coincide with the standard ones there
+    for op in ("bvsdiv", "bvudiv", "bvsrem", "bvurem", "bvsmod"):
+        smt2_text = smt2_text.replace(op + "_i", op)
+    slv = cvc5.Solver()
+    slv.setOption("tlimit-per", str(tlimit_ms or XCHECK_TLIMIT_MS))
+    slv.setLogic("ALL")
+    p = cvc5.InputParser(slv)
+    p.setStringInput(cvc5.InputLanguage.SMT_LIB_2_6, smt2_text, "q")
+    sm = p.getSymbolManager()
+    res = "unknown"
+    while True:
+        cmd = p.nextCommand()
+        if cmd.isNull():
+            break
+        out = cmd.invoke(slv, sm).strip()
+        if out in ("sat", "unsat", "unknown"):
+            res = out
+    return res
+
+
 class Ctx:
     """One path.  `prefix` is the list of decisions to follow, `trace` the decisions taken."""
 
@@ -59,6 +86,33 @@ class Ctx:
         self.unsupported: list[str] = []
         self.notes: list[str] = []
         self.nondeterminism = False
+        self.xcheck = 0  # how many more unsat verdicts of this path are re-decided by cvc5
+        self.xstats = {"agree": 0, "cvc5_unknown": 0, "cvc5_error": 0, "disagree": 0, "cvc5_s": 0.0}
+
+    def cross_check_unsat(self, negated, msg):
+        """z3 said `path condition AND negated` is unsat; ask cvc5 (independent code base) the same."""
+        if self.xcheck <= 0:
+            return
+        self.xcheck -= 1
+        s2 = z3.Solver()
+        s2.add(self.solver.assertions())
+        s2.add(negated)
+        t = time.perf_counter()
+        try:
+            r = cvc5_verdict(s2.to_smt2())
+        except Exception as e:  # parse problem on a z3-specific operator etc.
+            r = "error"
+            self.notes.append(f"cvc5 could not take the query for '{msg}': {e}"[:300])
+        self.xstats["cvc5_s"] += time.perf_counter() - t
+        if r == "unsat":
+            self.xstats["agree"] += 1
+        elif r == "sat":
+            self.xstats["disagree"] += 1
+            self.notes.append(f"unknown on check: solvers disagree (z3 unsat, cvc5 sat) on '{msg}'")
+        elif r == "error":
+            self.xstats["cvc5_error"] += 1
+        else:
+            self.xstats["cvc5_unknown"] += 1
 
     # -- solver helpers
     def query(self, *extra):
